@@ -1,11 +1,11 @@
 INIT Init
 NEXT Next
 CONSTANTS
-  FactorNames <- N_small
+  FactorNames <- N_q7
   Powers <- P_pm1
   MaxFactors = 2
   Mags <- M_pos
-  TargetNames <- N_small
+  TargetNames <- N_q7
   TargetPowers <- P_pm1
   MaxTFactors = 2
   ScaleKs <- K_one
